@@ -92,6 +92,10 @@ def pool(rng):
          # a relative seek (terminator left in place) inside length-limited regions: the same values at every starting offset
          A.FixedSized(6, A.Sequence(A.NullTerminated(A.GreedyBytes, consume=False), A.GreedyBytes)),
          A.Struct(A.Renamed("n", A.Alias("Byte")), A.Renamed("p", A.Prefixed(A.Alias("Byte"), A.Sequence(A.NullTerminated(A.GreedyBytes, consume=False), A.Alias("Byte")))))]
+    # positions counted from the end of a region (negative Pointer, OffsettedEnd), inside regions: the same values at every starting offset
+    P += [A.FixedSized(4, A.Struct(A.Renamed("first", A.Alias("Byte")), A.Renamed("last", A.Pointer(-1, A.Alias("Byte"))))),
+          A.Struct(A.Renamed("h", A.Alias("Byte")), A.Renamed("b", A.Prefixed(A.Alias("Byte"), A.Struct(A.Renamed("d", A.OffsettedEnd(-1, A.GreedyBytes)), A.Renamed("c", A.Alias("Byte")))))),
+          A.FixedSized(5, A.Struct(A.Renamed("a", A.Alias("Byte")), A.Renamed("z", A.Pointer(-2, A.Alias("Int16ub"))), A.Renamed("r", A.OffsettedEnd(-2, A.GreedyBytes))))]
     # bit-level regions of data-dependent length (the streaming wrapper): a call may fail in the middle of a byte, the next one starts clean
     P += [A.Bitwise(A.Struct(A.Renamed("n", A.Alias("Nibble")), A.Renamed("v", A.BitsInteger(A.T("n"))))),
           A.Bitwise(A.Struct(A.Renamed("n", A.Alias("Nibble")), A.Check(A.Bin("<", A.T("n"), A.C(9))), A.Renamed("a", A.Array(A.T("n"), A.Alias("Bit"))), A.Renamed("p", A.Padding(A.Bin("%", A.Bin("-", A.C(12), A.T("n")), A.C(8)))))),
@@ -238,6 +242,27 @@ def run(ctx):
                 j3, _ = camp.build(bp, bc, goodv, b"", {})
                 i4, _ = camp.parse(bp, bc, goodd, 0, {})
                 camp.sh.session("C17.pure", [i1, i3]); camp.sh.session("C17.pure", [j1, j3]); camp.sh.session("C17.pure", [i1, i4])
+                nt += 1
+            # ---- arguments that are equal to earlier ones but of another type (5.0 after 5, True after 1): what a call does with them
+            #      does not depend on what was built before
+            for bj, bp in enumerate((A.BitStruct(A.Renamed("a", A.BitsInteger(8)), A.Renamed("b", A.BitsInteger(8, signed=True))),
+                       A.Bitwise(A.Struct(A.Renamed("a", A.BitsInteger(A.T("_params", "w"))), A.Renamed("b", A.BitsInteger(8, signed=True)))),
+                       A.Struct(A.Renamed("a", A.BytesInteger(2)), A.Renamed("b", A.Alias("Int8sb"))))):
+                bc = campaign.realizable(bp)
+                if bc is None:
+                    continue
+                try:
+                    comp = bc.compile()
+                except Exception:
+                    comp = None
+                for cj, (po, co) in enumerate(((bp, bc),) + (((opq("compiled twin"), comp),) if comp is not None else ())):
+                    fresh = 40 + 20 * bj + 7 * cj + rnd        # a value no earlier call of this process has put into a field of this width
+                    for odd, plain in (({"a": fresh, "b": -(fresh % 100)}, {"a": fresh, "b": -(fresh % 100)}), ({"a": 201.0, "b": -3}, {"a": 201, "b": -3}), ({"a": True, "b": 1}, {"a": 1, "b": 1}), ({"a": 5, "b": -3.0}, {"a": 5, "b": -3})):
+                        for kw in ({"w": 8.0}, {"w": 8}):
+                            i1, _ = camp.build(po, co, odd, b"", kw)
+                            i2, _ = camp.build(po, co, plain, b"", {"w": 8})
+                            i3, _ = camp.build(po, co, odd, b"", kw)
+                            camp.sh.session("C17.pure", [i1, i3])
                 nt += 1
             # ---- signed and unsigned bit fields of the same narrow width: what one accepted says nothing about the other
             for w in (3, 4, 7):
